@@ -32,10 +32,13 @@ import (
 // putting that sentinel into the Unwrap chain.
 type SrcErr struct {
 	Msg  string
-	Also error
+	Also error // answered by the Is method, not in the Unwrap chain
+	Wrap error // in the Unwrap chain
 }
 
 func (e *SrcErr) Error() string { return e.Msg }
+
+func (e *SrcErr) Unwrap() error { return e.Wrap }
 
 func (e *SrcErr) Is(t error) bool { return e.Also != nil && t == e.Also }
 
@@ -46,10 +49,35 @@ func (e *SrcErr) Src() string { return strings.TrimSuffix(strings.TrimPrefix(e.M
 // ErrUserOk is what the harness's WithAcceptable function accepts.
 var ErrUserOk = errors.New("c14 user-acceptable")
 
+// ErrUserOk2 is what the harness's second WithAcceptable function accepts.
+var ErrUserOk2 = errors.New("c14 second-user-acceptable")
+
+// SentinelOf is the value `acceptable` looks for in an error of a class (nil: none / not a sentinel class).
+func SentinelOf(cls string) error {
+	switch cls {
+	case "norows":
+		return sql.ErrNoRows
+	case "txdone":
+		return sql.ErrTxDone
+	case "canceled":
+		return context.Canceled
+	case "userok":
+		return ErrUserOk
+	case "userok2":
+		return ErrUserOk2
+	}
+	return nil
+}
+
 // bodies also return the standard sentinels themselves (`return sqlx.ErrNotFound`)
 var rawSentinels = map[error]string{sql.ErrNoRows: "body.norows", sql.ErrTxDone: "body.txdone"}
 
-func rawName(e error) string {
+func rawName(e error, bare map[error]string) string {
+	for s, name := range bare {
+		if e == s {
+			return name
+		}
+	}
 	for s, name := range rawSentinels {
 		if e == s { // different dynamic types compare unequal without hashing
 			return name
@@ -61,7 +89,12 @@ func rawName(e error) string {
 // values of the environment a transaction can meet: the context's two errors and the driver's "bad connection"
 var envSentinels = map[error]string{context.Canceled: "ctx", context.DeadlineExceeded: "deadline", driver.ErrBadConn: "badconn"}
 
-func envName(e error) string {
+func envName(e error, bare map[error]string) string {
+	for s, name := range bare {
+		if e == s {
+			return name
+		}
+	}
 	for s, name := range envSentinels {
 		if e == s {
 			return name
@@ -80,6 +113,12 @@ func Classify(err error, extra func(error) (string, error, bool)) string {
 
 // ClassifyT additionally recognises foreign error texts (texts: substring -> source name) in the message.
 func ClassifyT(err error, extra func(error) (string, error, bool), texts map[string]string) string {
+	return ClassifyB(err, extra, texts, nil)
+}
+
+// ClassifyB: bare maps a sentinel VALUE the driver was told to return itself from Commit / Rollback (a "bare"
+// acceptable-class error) to the source name of that fault point, for this one classification.
+func ClassifyB(err error, extra func(error) (string, error, bool), texts map[string]string, bare map[error]string) string {
 	if err == nil {
 		return "nil"
 	}
@@ -91,12 +130,12 @@ func ClassifyT(err error, extra func(error) (string, error, bool), texts map[str
 			seen[se.Src()] = true
 			break
 		}
-		if name := rawName(e); name != "" {
+		if name := rawName(e, bare); name != "" {
 			is = append(is, name)
 			seen[name] = true
 			break
 		}
-		if name := envName(e); name != "" {
+		if name := envName(e, bare); name != "" {
 			is = append(is, name)
 			seen[name] = true
 			break
@@ -129,12 +168,18 @@ func ClassifyT(err error, extra func(error) (string, error, bool), texts map[str
 		says = append(says, "panic")
 	}
 	for e, name := range rawSentinels {
+		if b, ok := bare[e]; ok {
+			name = b
+		}
 		if strings.Contains(msg, e.Error()) && !seen[name] {
 			seen[name] = true
 			says = append(says, name)
 		}
 	}
 	for e, name := range envSentinels {
+		if b, ok := bare[e]; ok {
+			name = b
+		}
 		if strings.Contains(msg, e.Error()) && !seen[name] {
 			seen[name] = true
 			says = append(says, name)
@@ -166,6 +211,7 @@ type Plan struct {
 	OpenOk                  bool
 	BadLeft                 int  // Begin is answered driver.ErrBadConn this many times first
 	CommitPanics, RbPanics  bool // the driver's Commit / Rollback panics
+	CommitErr, RbErr        error // what a failing Commit / Rollback returns (nil: a plain marked error)
 	log                     []string
 }
 
@@ -173,6 +219,7 @@ func (p *Plan) Reset(beginOk, commitOk, rbOk bool) {
 	p.mu.Lock()
 	p.BeginOk, p.CommitOk, p.RbOk = beginOk, commitOk, rbOk
 	p.BadLeft, p.CommitPanics, p.RbPanics = 0, false, false
+	p.CommitErr, p.RbErr = nil, nil
 	p.log = nil
 	p.mu.Unlock()
 }
@@ -265,7 +312,7 @@ func (c *conn) BeginTx(context.Context, driver.TxOptions) (driver.Tx, error) {
 	return &tx{p: c.p}, nil
 }
 
-// statements carry their own fault decision: "c14 <index> <ok|fail>"
+// statements carry their own fault decision: "c14 <index> <ok|fail|empty>" (empty: the query works and finds no row)
 func parseStmt(q string) (int, bool) {
 	f := strings.Fields(q)
 	if len(f) != 3 || f[0] != "c14" {
@@ -275,7 +322,7 @@ func parseStmt(q string) (int, bool) {
 	if err != nil {
 		panic("c14 driver: unexpected statement " + q)
 	}
-	return i, f[2] == "ok"
+	return i, f[2] == "ok" || f[2] == "empty"
 }
 
 func (c *conn) ExecContext(_ context.Context, q string, _ []driver.NamedValue) (driver.Result, error) {
@@ -295,6 +342,9 @@ func (c *conn) QueryContext(_ context.Context, q string, _ []driver.NamedValue) 
 		return nil, NewSrcErr(fmt.Sprintf("stmt%d", i), nil)
 	}
 	c.p.add(fmt.Sprintf("Q%d", i))
+	if strings.HasSuffix(q, " empty") {
+		return &rows{n: 0}, nil
+	}
 	return &rows{n: 1}, nil
 }
 
@@ -307,6 +357,9 @@ func (t *tx) Commit() error {
 	}
 	if !t.p.CommitOk {
 		t.p.add("C!")
+		if t.p.CommitErr != nil {
+			return t.p.CommitErr
+		}
 		return NewSrcErr("commit", nil)
 	}
 	t.p.add("C")
@@ -320,6 +373,9 @@ func (t *tx) Rollback() error {
 	}
 	if !t.p.RbOk {
 		t.p.add("R!")
+		if t.p.RbErr != nil {
+			return t.p.RbErr
+		}
 		return NewSrcErr("rollback", nil)
 	}
 	t.p.add("R")
@@ -389,7 +445,7 @@ func (c *Ctx) Finish(err error) {
 // generator (separate from execution: only op text leaves it)
 
 // AllClasses are the body-error classes `acceptable` distinguishes ("acctype" needs package sqlx).
-var AllClasses = []string{"plain", "norows", "txdone", "canceled", "acctype", "userok"}
+var AllClasses = []string{"plain", "norows", "txdone", "canceled", "acctype", "userok", "userok2"}
 
 func genStmts(r *verifh.Rng, n int, faultAt int, faultLetter byte, checked bool) string {
 	if n == 0 {
@@ -404,10 +460,14 @@ func genStmts(r *verifh.Rng, n int, faultAt int, faultLetter byte, checked bool)
 				b[i] = 'X'
 			case x < 78:
 				b[i] = 'Y'
-			case x < 90:
+			case x < 88:
 				b[i] = 'p'
+			case x < 91:
+				b[i] = 't'
 			case x < 94:
 				b[i] = 'x'
+			case x < 96:
+				b[i] = 'o'
 			default:
 				b[i] = 'M'
 			}
@@ -426,9 +486,13 @@ func genStmts(r *verifh.Rng, n int, faultAt int, faultLetter byte, checked bool)
 			b[i] = 'Y'
 		case x < 86:
 			b[i] = 'i'
-		case x < 92:
+		case x < 90:
 			b[i] = 'h'
-		case x < 96:
+		case x < 93:
+			b[i] = 'o'
+		case x < 95:
+			b[i] = 't'
+		case x < 98:
 			b[i] = 'm'
 		default:
 			b[i] = 'M'
@@ -447,12 +511,21 @@ func okfail(b bool) string {
 	return "fail"
 }
 
-func endAns(r *verifh.Rng) string {
+// endAns: the driver's answer to Commit / Rollback: ok, an error (plain, or of one of the acceptable-error
+// classes in one of three forms: i = answers errors.Is through an Is method, w = wraps the sentinel, b = IS the
+// sentinel), or a panic.
+func endAns(r *verifh.Rng, classes []string) string {
 	switch x := r.Intn(100); {
-	case x < 62:
+	case x < 58:
 		return "ok"
-	case x < 93:
+	case x < 76:
 		return "fail"
+	case x < 93:
+		cls := classes[r.Intn(len(classes))]
+		if cls == "plain" {
+			return "fail"
+		}
+		return "fail:" + cls + ":" + r.PickS("i", "w", "b")
 	default:
 		return "panic"
 	}
@@ -475,7 +548,7 @@ func GenOp(r *verifh.Rng, apis, classes []string, maxLen int, allowReject bool) 
 		n = r.Range(0, maxLen)
 	}
 	api := apis[r.Intn(len(apis))]
-	begin, commit, rollback := true, endAns(r), endAns(r)
+	begin, commit, rollback := true, endAns(r, classes), endAns(r, classes)
 	end := "ok"
 	faultAt, letter := -1, byte('f')
 	oq := false
@@ -487,7 +560,7 @@ func GenOp(r *verifh.Rng, apis, classes []string, maxLen int, allowReject bool) 
 			n = 1
 		}
 		faultAt = r.Intn(n)
-		letter = "fgnNP"[r.Intn(5)]
+		letter = "fgnNPrrwT"[r.Intn(9)]
 	case x < 50: // the body returns its own error after all statements
 		end = "err:" + classes[r.Intn(len(classes))]
 	case x < 68: // the body panics after all statements
@@ -506,6 +579,13 @@ func GenOp(r *verifh.Rng, apis, classes []string, maxLen int, allowReject bool) 
 			commit = "fail"
 		}
 		if rollback == "panic" {
+			rollback = "fail"
+		}
+		// the informational branch of the driver compares logs only: keep the plain error values
+		if strings.HasPrefix(commit, "fail:") {
+			commit = "fail"
+		}
+		if strings.HasPrefix(rollback, "fail:") {
 			rollback = "fail"
 		}
 	}
@@ -614,6 +694,51 @@ func Exhaustive(api string, maxLen int) []string {
 	return ops
 }
 
+// ExhaustiveAcc sweeps the acceptable-error classes over every place an error of a transaction can come from
+// (the body's own error, a QueryRow that finds no row at statement k, the driver's Commit error, the driver's
+// Rollback error after a body error / after a panic), each in its forms (Is method / wrapped / bare sentinel),
+// for bodies of length 0..maxLen — and statements made through NewSessionFromTx / nested over it.
+func ExhaustiveAcc(api string, classes []string, maxLen int, inst int) []string {
+	var ops []string
+	add := func(stmts, end, c, rb string) {
+		if stmts == "" {
+			stmts = "-"
+		}
+		ops = append(ops, fmt.Sprintf("tx api=%s begin=ok bad=0 stmts=%s end=%s commit=%s rollback=%s brk=allow cancel=- inst=%d",
+			api, stmts, end, c, rb, inst))
+	}
+	rep := func(l string, n int) string { return strings.Repeat(l, n) }
+	for n := 0; n <= maxLen; n++ {
+		for _, cls := range classes {
+			// the body's own error (n steers the form of the value: bare / Is method / wrapped)
+			add(rep("X", n), "err:"+cls, "ok", "ok")
+			add(rep("X", n), "err:"+cls, "fail", "fail")
+			if cls == "plain" {
+				continue
+			}
+			for _, form := range []string{"i", "w", "b"} {
+				ans := "fail:" + cls + ":" + form
+				add(rep("X", n), "ok", ans, "ok")
+				add(rep("X", n), "err:plain", "ok", ans)
+				add(rep("X", n), "panic", "ok", ans)
+				add(rep("X", n), "err:"+cls, ans, ans)
+				if n > 0 {
+					add(rep("X", n-1)+"f", "ok", ans, ans)
+					add(rep("X", n-1)+"r", "ok", ans, ans)
+				}
+			}
+		}
+		for k := 0; k < n; k++ {
+			for _, l := range []string{"r", "o", "w", "t", "T"} {
+				for _, rb := range []string{"ok", "fail", "fail:txdone:b"} {
+					add(rep("X", k)+l+rep("X", n-k-1), "ok", "ok", rb)
+				}
+			}
+		}
+	}
+	return ops
+}
+
 // ---------------------------------------------------------------------------------------------
 // executor
 
@@ -624,9 +749,22 @@ type Sess struct {
 	PExec   func(q string) error // Prepare inside the transaction, execute, close
 	Nest    func() error // NewSqlConnFromSession / WithSession … Transact
 	NestCtx func() error // … TransactCtx
+	// QueryRow: a single-row query (Session.QueryRow[Ctx]); finds no row for a statement text ending in " empty"
+	QueryRow func(q string) error
+	// RawExec / RawNest: the statement / the nested Transact through NewSessionFromTx(the transaction's raw
+	// *sql.Tx); nil where the raw Tx is out of reach (then Exec / Nest are used)
+	RawExec func(q string) error
+	RawNest func() error
 	// End ends the context the body was given (deadline: with DeadlineExceeded, else Canceled);
 	// nil when the entry point has no context.
 	End func(deadline bool)
+}
+
+// Core is what the harness saw of the request the wrapper handed to the breaker: Seen = it can observe it at
+// all, Ran = the request returned, Err = what it returned.
+type Core struct {
+	Seen, Ran bool
+	Err       error
 }
 
 // Hooks connect the executor to one package's way of calling the real code.
@@ -635,7 +773,11 @@ type Hooks struct {
 	// error; *mark receives what the breaker was told ("ok", "fail", "-" not asked, "?" not observable) also
 	// when the call leaves by a panic. kind is "" (the context never ends), "c" (it will be cancelled) or
 	// "d" (its deadline will pass) while the body runs.
-	Call func(api, kind string, brkAllow bool, body func(Sess) error, mark *string) error
+	// *core receives the classified error the request handed to the breaker returned ("-": the request did not
+	// run or did not return, "?": not observable). inst: which SqlConn instance of the section is called.
+	Call func(api, kind string, brkAllow bool, inst int, body func(Sess) error, mark *string, core *Core) error
+	// MkAcc wraps an error into the package-private acceptableError type (nil: not available).
+	MkAcc func(inner error) error
 	// BodyErr builds the body's own error of a class (nil: default construction).
 	BodyErr func(cls string) error
 	// Extra lets Classify look into package-private wrappers.
@@ -655,13 +797,21 @@ func kv(op []string) map[string]string {
 	return m
 }
 
-func DefaultBodyErr(cls string, raw bool) error {
-	if raw {
+// DefaultBodyErr: variant 0 = the standard sentinel itself where the class has one the harness can tell apart
+// from the environment's errors (sql.ErrNoRows, sql.ErrTxDone), variant 2 = a marked error that WRAPS the
+// class's sentinel (Unwrap chain), otherwise a marked error that answers errors.Is through its Is method.
+func DefaultBodyErr(cls string, variant int) error {
+	if variant == 0 {
 		switch cls {
 		case "norows":
 			return sql.ErrNoRows
 		case "txdone":
 			return sql.ErrTxDone
+		}
+	}
+	if variant == 2 {
+		if sen := SentinelOf(cls); sen != nil {
+			return &SrcErr{Msg: "<c14:body." + cls + ">", Wrap: sen}
 		}
 	}
 	switch cls {
@@ -675,6 +825,8 @@ func DefaultBodyErr(cls string, raw bool) error {
 		return NewSrcErr("body.canceled", context.Canceled)
 	case "userok":
 		return NewSrcErr("body.userok", ErrUserOk)
+	case "userok2":
+		return NewSrcErr("body.userok2", ErrUserOk2)
 	case "acctype":
 		// outside package sqlx the private acceptableError type cannot be built
 		return nil
@@ -703,6 +855,65 @@ func RunOp(op []string, h Hooks) string {
 	if stmts == "-" {
 		stmts = ""
 	}
+	inst := 0
+	if v, ok := m["inst"]; ok {
+		if v != "0" && v != "1" {
+			return "bad-op inst=" + v
+		}
+		inst = int(v[0] - '0')
+	}
+	// the class and form of the error a failing Commit / Rollback returns
+	bareName := map[string]map[error]string{}
+	rbBare := false
+	for _, key := range []string{"commit", "rollback"} {
+		ans := m[key]
+		if ans == "ok" || ans == "fail" || ans == "panic" {
+			continue
+		}
+		f := strings.Split(ans, ":")
+		if len(f) != 3 || f[0] != "fail" || f[1] == "plain" || (f[2] != "i" && f[2] != "w" && f[2] != "b") {
+			return "bad-op " + key + "=" + ans
+		}
+		cls, form := f[1], f[2]
+		name := key + "." + cls
+		var e error
+		sen := SentinelOf(cls)
+		switch {
+		case cls == "acctype":
+			if h.MkAcc == nil {
+				return "unsupported-class " + cls
+			}
+			e = h.MkAcc(NewSrcErr(name, nil))
+		case sen == nil:
+			return "bad-op " + key + "=" + ans
+		default:
+			if form == "b" && key == "rollback" {
+				// the sentinel itself cannot be told apart from the same value in the body's error: keep the
+				// marked form where the body can produce that value
+				if (cls == "canceled" && strings.HasPrefix(m["cancel"], "c")) ||
+					(cls == "norows" && strings.ContainsAny(stmts, "ro")) {
+					form = "i"
+				}
+			}
+			switch form {
+			case "i":
+				e = NewSrcErr(name, sen)
+			case "w":
+				e = &SrcErr{Msg: "<c14:" + name + ">", Wrap: sen}
+			default:
+				e = sen
+				bareName[key] = map[error]string{sen: name}
+				if key == "rollback" {
+					rbBare = true
+				}
+			}
+		}
+		if key == "commit" {
+			h.Plan.CommitErr = e
+		} else {
+			h.Plan.RbErr = e
+		}
+	}
 	// the context ends just before statement cancelAt (len(stmts): just before the body ends)
 	cancelAt, kind := -1, ""
 	if c := m["cancel"]; c != "-" {
@@ -719,8 +930,13 @@ func RunOp(op []string, h Hooks) string {
 			endErr = h.BodyErr(cls)
 		}
 		if endErr == nil {
-			// bodies of even length return the standard sentinel itself, the others a value that answers errors.Is
-			endErr = DefaultBodyErr(cls, len(stmts)%2 == 0)
+			// the body length steers the form of the value: the standard sentinel itself / a value that answers
+			// errors.Is through its Is method / a value that wraps the sentinel
+			variant := len(stmts) % 3
+			if rbBare && variant == 0 {
+				variant = 1
+			}
+			endErr = DefaultBodyErr(cls, variant)
 		}
 		if endErr == nil {
 			return "unsupported-class " + cls
@@ -750,6 +966,24 @@ func RunOp(op []string, h Hooks) string {
 				e, prop = s.Exec(fmt.Sprintf("c14 %d ok", i)), true
 			case 'Y':
 				e, prop = s.Query(fmt.Sprintf("c14 %d ok", i)), true
+			case 'r':
+				e, prop = s.QueryRow(fmt.Sprintf("c14 %d empty", i)), true
+			case 'o':
+				e = s.QueryRow(fmt.Sprintf("c14 %d empty", i))
+			case 'w':
+				e, prop = s.QueryRow(fmt.Sprintf("c14 %d fail", i)), true
+			case 't':
+				if s.RawExec != nil {
+					e, prop = s.RawExec(fmt.Sprintf("c14 %d ok", i)), true
+				} else {
+					e, prop = s.Exec(fmt.Sprintf("c14 %d ok", i)), true
+				}
+			case 'T':
+				if s.RawNest != nil {
+					e, prop = s.RawNest(), true
+				} else {
+					e, prop = s.Nest(), true
+				}
 			case 'p':
 				e, prop = s.PExec(fmt.Sprintf("c14 %d ok", i)), true
 			case 'P':
@@ -775,7 +1009,7 @@ func RunOp(op []string, h Hooks) string {
 			default:
 				panic("c14 harness: bad statement letter")
 			}
-			if prop && e == nil && (stmts[i] == 'X' || stmts[i] == 'Y' || stmts[i] == 'p') {
+			if prop && e == nil && (stmts[i] == 'X' || stmts[i] == 'Y' || stmts[i] == 'p' || stmts[i] == 't') {
 				continue // `if err != nil { return err }` on a statement that worked
 			}
 			if prop {
@@ -811,6 +1045,7 @@ func RunOp(op []string, h Hooks) string {
 	}
 	var ret error
 	mark := "-"
+	var core Core
 	var escaped any
 	returned := false
 	if m["end"] == "panicnil1" {
@@ -833,10 +1068,25 @@ func RunOp(op []string, h Hooks) string {
 				escaped = p
 			}
 		}()
-		ret = h.Call(m["api"], kind, m["brk"] != "reject", body, &mark)
+		ret = h.Call(m["api"], kind, m["brk"] != "reject", inst, body, &mark, &core)
 		returned = true
 	}()
 	<-done
+	// a bare sentinel returned by the driver's Commit / Rollback carries no marker: name it after the fault
+	// point whose answer it was (the last driver call)
+	var bare map[error]string
+	if lg := h.Plan.Log(); strings.HasSuffix(lg, "R!") {
+		bare = bareName["rollback"]
+	} else if strings.HasSuffix(lg, "C!") {
+		bare = bareName["commit"]
+	}
+	coreObs := ""
+	if core.Seen {
+		coreObs = " core=-"
+		if core.Ran {
+			coreObs = " core=" + ClassifyB(core.Err, h.Extra, h.Texts, bare)
+		}
+	}
 	if escaped == nil && !returned {
 		return fmt.Sprintf("log=%s runs=%d body=%s ret=noreturn mark=- esc=0", h.Plan.Log(), runs, bodyOut)
 	}
@@ -849,6 +1099,6 @@ func RunOp(op []string, h Hooks) string {
 		return fmt.Sprintf("log=%s runs=%d body=%s ret=%s mark=%s esc=1", h.Plan.Log(), runs, bodyOut,
 			ClassifyT(pe, h.Extra, h.Texts), mark)
 	}
-	return fmt.Sprintf("log=%s runs=%d body=%s ret=%s mark=%s esc=0", h.Plan.Log(), runs, bodyOut,
-		ClassifyT(ret, h.Extra, h.Texts), mark)
+	return fmt.Sprintf("log=%s runs=%d body=%s ret=%s mark=%s esc=0%s", h.Plan.Log(), runs, bodyOut,
+		ClassifyB(ret, h.Extra, h.Texts, bare), mark, coreObs)
 }
